@@ -341,6 +341,25 @@ where
             self.storage()
                 .replace_group_relays(&mls_group_id, welcome_preview.nostr_group_data.relays)
                 .map_err(|e| Error::Group(e.to_string()))?;
+
+            // The joined state replaces any earlier state held under this MLS group id
+            // (`replace_old_group`). An exporter secret cached for the same epoch number by that
+            // earlier state (e.g. a competing invitation accepted before) is not the secret of
+            // the state just joined: overwrite it, or every wrapper this member creates is
+            // encrypted with a key no other member holds.
+            let export_secret: [u8; 32] = mls_group
+                .export_secret(self.provider.crypto(), "nostr", b"nostr", 32)?
+                .try_into()
+                .map_err(|_| {
+                    Error::Group("Failed to convert export secret to [u8; 32]".to_string())
+                })?;
+            self.storage()
+                .save_group_exporter_secret(group_types::GroupExporterSecret {
+                    mls_group_id: mls_group_id.clone(),
+                    epoch: mls_group.epoch().as_u64(),
+                    secret: mdk_storage_traits::Secret::new(export_secret),
+                })
+                .map_err(|e| Error::Group(e.to_string()))?;
         }
 
         Ok(())
